@@ -2,6 +2,7 @@
 //!
 //!   vh replay <prop> <cases.ndjson> <report.json>      direction R (spec -> implementation)
 //!   vh record <prop> <seed> <n> <trace.ndjson>         direction V (implementation -> spec)
+mod c04;
 mod c12;
 mod c19;
 mod util;
@@ -22,6 +23,7 @@ fn main() {
       let cases = read_cases(&args[3]);
       let mut rep = Report::new();
       match args[2].as_str() {
+        "C04" => c04::replay(&cases, &mut rep),
         "C12" => c12::replay(&cases, &mut rep),
         "C19" => c19::replay(&cases, &mut rep),
         p => tool_error(&format!("no replay driver for {p}")),
@@ -36,6 +38,7 @@ fn main() {
       let n: u64 = args[4].parse().unwrap_or_else(|_| tool_error("bad n"));
       let mut out = TraceOut::create(&args[5]);
       match args[2].as_str() {
+        "C04" => c04::record(seed, n, &mut out),
         "C12.list" => c12::record("list", seed, n, &mut out),
         "C12.cred" => c12::record("cred", seed, n, &mut out),
         "C19.OrderedSet" => c19::record_ordered_set(seed, n, &mut out),
